@@ -163,6 +163,17 @@ func runC07(c *mon.Ctx) {
 	}
 
 	unreg := func(base int) string {
+		if base == 2 && g.R.Intn(3) == 0 {
+			// near misses of registered names (normalising comparisons must not equate them)
+			l := append([]string{}, model.NearMissProfileNames...)
+			if _, ok := reg.types[extprof.ExtP2Name]; ok {
+				l = append(l, "HTTP://example.com/psa-ext/2.0.0", "http://example.com/psa-ext/2.0.0#", "http://EXAMPLE.com/psa-ext/2.0.0")
+			}
+			return l[g.R.Intn(len(l))]
+		}
+		if base == 1 && g.R.Intn(4) == 0 {
+			return []string{"PSA_IOT_PROFILE_1 ", " PSA_IOT_PROFILE_1", "PSA_IOT_PROFILE_01", "PSA_IOT_PROFILE_1\x00", "PSA-IOT-PROFILE-1", "Psa_Iot_Profile_1"}[g.R.Intn(6)]
+		}
 		cands := []string{"http://example.com/unregistered/1", "http://arm.com/psa/3.0.0", "PSA_IOT_PROFILE_9", "psa_iot_profile_1", extprof.ExtP2Name, extprof.ExtP1Name, "http://example.com/numbered/9", "PSA_IOT_PROFILE_1_N7", "x"}
 		for {
 			s := cands[g.R.Intn(len(cands))]
